@@ -155,7 +155,7 @@ func (v Variable) String() string {
 			return str
 		}
 	case Associative:
-		// nothing to do
+		return v.Map["0"]
 	}
 	return ""
 }
